@@ -55,11 +55,20 @@ func funcArrayLen(ctx *Context, this *VMValue, params []*VMValue) *VMValue {
 	return NewIntVal(IntType(len(arr.List)))
 }
 
+// ctxRandIntn 从上下文的随机源(未设置种子时为全局随机源)取 [0,n) 内的随机数，n 必须为正
+func ctxRandIntn(ctx *Context, n int) int {
+	var src *rand.PCGSource
+	if ctx != nil {
+		src = ctx.RandSrc
+	}
+	return int(Roll(src, IntType(n), 0)) - 1
+}
+
 func funcArrayShuttle(ctx *Context, this *VMValue, params []*VMValue) *VMValue {
 	arr, _ := this.ReadArray()
 	lst := arr.List
 	for i := len(lst) - 1; i > 0; i-- { // Fisher–Yates shuffle
-		j := rand.Intn(i + 1)
+		j := ctxRandIntn(ctx, i+1)
 		lst[i], lst[j] = lst[j], lst[i]
 	}
 	return this
@@ -67,7 +76,7 @@ func funcArrayShuttle(ctx *Context, this *VMValue, params []*VMValue) *VMValue {
 
 func funcArrayRand(ctx *Context, this *VMValue, params []*VMValue) *VMValue {
 	arr, _ := this.ReadArray()
-	return arr.List[rand.Intn(len(arr.List))]
+	return arr.List[ctxRandIntn(ctx, len(arr.List))]
 }
 
 func funcArrayRandSize(ctx *Context, this *VMValue, params []*VMValue) *VMValue {
